@@ -119,7 +119,9 @@ class Tree:
 
     def __contains__(self, data):
         """Implement ``data in tree`` syntax to check for node existence."""
-        return bool(self.find_first(data))
+        # Note: don't rely on the truth value of a node (a custom node class
+        # may define `__len__()` or `__bool__()`)
+        return self.find_first(data) is not None
 
     def __delitem__(self, data):
         """Implement ``del tree[data]`` syntax to remove nodes."""
